@@ -454,6 +454,40 @@ signal sig2 : rec.field'subtype;
 }
 
 #[test]
+fn test_base_attribute_is_only_allowed_as_attribute_prefix() {
+    let mut builder = LibraryBuilder::new();
+    let code = builder.in_declarative_region(
+        "
+subtype sub_t is integer range 1 to 3;
+constant good1 : integer := natural'base'left;
+constant good2 : integer := sub_t'base'high;
+signal bad1 : natural'base;
+constant bad2 : integer := natural'base'(0);
+constant bad3 : integer := good1'base'left;
+",
+    );
+    let diagnostics = builder.analyze();
+    check_diagnostics(
+        diagnostics,
+        vec![
+            Diagnostic::illegal_attribute(
+                code.s("natural'base", 2),
+                "The base attribute can only be used as the prefix of another attribute",
+            ),
+            Diagnostic::illegal_attribute(
+                code.s("natural'base", 3),
+                "The base attribute can only be used as the prefix of another attribute",
+            ),
+            Diagnostic::mismatched_kinds(
+                code.s1("good1'base"),
+                "Expected type, got constant 'good1'",
+            )
+            .related(code.s1("good1"), "Defined here"),
+        ],
+    );
+}
+
+#[test]
 fn check_good_type_marks() {
     check_code_with_no_diagnostics(
         "
